@@ -144,6 +144,39 @@ theorem two_le_countP_iff {α : Type} (pr : α → Bool) : ∀ (l : List α),
 
 /-! ### the scan when every list entry was played over the board -/
 
+/-- soundness direction alone: needs only that the hash does not identify different positions -/
+theorem scanOld_imp {K : Type} [DecidableEq K] (key : P → K) (hash : P → Nat)
+    (l : List P) (new : P) (newHmc firstNew : Int)
+    (hfn : (l.length : Int) - 3 ≤ firstNew)
+    (hinj : ∀ q ∈ l, hash q = hash new → key q = key new)
+    (h : scanOld hash l (hash new) newHmc firstNew = true) : 2 ≤ l.countP (fun q => decide (key q = key new)) := by
+  unfold scanOld at h
+  rw [Rep.canClaimDrawRep_iff] at h
+  rw [two_le_countP_iff]
+  have hget : ∀ (i : Nat) (q : P), l[i]? = some q → (l.map hash).getD i 0 = hash q := by
+    intro i q hq
+    rw [List.getD_eq_getElem?_getD, List.getElem?_map, hq]; rfl
+  have hsome : ∀ i : Nat, i < l.length → ∃ q, l[i]? = some q := by
+    intro i hi
+    exact ⟨l[i], List.getElem?_eq_getElem hi⟩
+  obtain ⟨i, hw, he, hr⟩ := h
+  have hw0 := hw
+  unfold Rep.InWindow at hw0
+  have hi0 : 0 ≤ i := by omega
+  rcases hr with hf | ⟨j, hwj, hne, hej⟩
+  · exfalso; omega
+  · have hwj0 := hwj
+    unfold Rep.InWindow at hwj0
+    obtain ⟨a, ha⟩ := hsome i.toNat (by omega)
+    obtain ⟨b, hb⟩ := hsome j.toNat (by omega)
+    rw [hget _ _ ha] at he
+    rw [hget _ _ hb] at hej
+    have ka := hinj a (List.mem_of_getElem? ha) he
+    have kb := hinj b (List.mem_of_getElem? hb) hej
+    by_cases hlt : i < j
+    · exact ⟨i.toNat, j.toNat, by omega, ⟨a, ha, by simpa using ka⟩, ⟨b, hb, by simpa using kb⟩⟩
+    · exact ⟨j.toNat, i.toNat, by omega, ⟨b, hb, by simpa using kb⟩, ⟨a, ha, by simpa using ka⟩⟩
+
 /-- **All entries old.**  `l` are the positions whose hashes are in the list (oldest first), `new` the position tested,
     `newHmc` its half-move clock.  `key` is identity under the rules.  Hypotheses: the hash separates exactly the
     `key`-classes on these positions (`hinj`: no collisions; `hwf`: positions equal under the rules carry equal hashes —
@@ -166,23 +199,9 @@ theorem scanOld_iff {K : Type} [DecidableEq K] (key : P → K) (hash : P → Nat
     intro i hi
     exact ⟨l[i], List.getElem?_eq_getElem hi⟩
   constructor
-  · rintro ⟨i, hw, he, hr⟩
-    have hw0 := hw
-    unfold Rep.InWindow at hw0
-    have hi0 : 0 ≤ i := by omega
-    rcases hr with hf | ⟨j, hwj, hne, hej⟩
-    · exfalso; omega
-    · have hwj0 := hwj
-      unfold Rep.InWindow at hwj0
-      obtain ⟨a, ha⟩ := hsome i.toNat (by omega)
-      obtain ⟨b, hb⟩ := hsome j.toNat (by omega)
-      rw [hget _ _ ha] at he
-      rw [hget _ _ hb] at hej
-      have ka := hinj a (List.mem_of_getElem? ha) he
-      have kb := hinj b (List.mem_of_getElem? hb) hej
-      by_cases hlt : i < j
-      · exact ⟨i.toNat, j.toNat, by omega, ⟨a, ha, by simpa using ka⟩, ⟨b, hb, by simpa using kb⟩⟩
-      · exact ⟨j.toNat, i.toNat, by omega, ⟨b, hb, by simpa using kb⟩, ⟨a, ha, by simpa using ka⟩⟩
+  · intro h
+    have := scanOld_imp key hash l new newHmc firstNew hfn hinj (by unfold scanOld; rw [Rep.canClaimDrawRep_iff]; exact h)
+    rwa [two_le_countP_iff] at this
   · rintro ⟨i, j, hij, ⟨a, ha, hpa⟩, ⟨b, hb, hpb⟩⟩
     have ka : key a = key new := by simpa using hpa
     have kb : key b = key new := by simpa using hpb
